@@ -33,6 +33,15 @@ pub fn bi<T: Storable>(r: &Ref) -> BuildItem<'static, T> {
     }
 }
 
+/// which calling form to use for a reference: 0 = plain (&str / bare handle), 1 = owned String, 2 = BuildItem
+fn form(r: &Ref) -> usize {
+    match r {
+        Ref::Id(s) => s.bytes().fold(s.len(), |a, b| a.wrapping_add(b as usize)) % 3,
+        Ref::Handle(h) => h % 2,
+        Ref::None => 2,
+    }
+}
+
 pub fn cursor(c: Cur) -> Cursor {
     match c {
         Cur::B(x) => Cursor::BeginAligned(x),
@@ -122,7 +131,13 @@ pub fn execute(store: &mut AnnotationStore, op: &Op) -> Outcome {
             let b = databuilder(d);
             res(guard(|| store.insert_data(b)), |(_, h)| Some(h.as_usize()))
         }
-        Op::RemoveAnnotation(r) => res(guard(|| store.remove_annotation(bi::<Annotation>(r))), |_| None),
+        // the same request in the forms a caller can use: &str, String, a bare handle, or a BuildItem (chosen by the shape of the reference, so replays are stable)
+        Op::RemoveAnnotation(r) => match (r, form(r)) {
+            (Ref::Id(s), 0) => res(guard(|| store.remove_annotation(s.as_str())), |_| None),
+            (Ref::Id(s), 1) => res(guard(|| store.remove_annotation(s.clone())), |_| None),
+            (Ref::Handle(h), 0) => res(guard(|| store.remove_annotation(AnnotationHandle::new(*h))), |_| None),
+            _ => res(guard(|| store.remove_annotation(bi::<Annotation>(r))), |_| None),
+        },
         Op::RemoveData { set, data, strict } => res(
             guard(|| store.remove_data(bi::<AnnotationDataSet>(set), bi::<AnnotationData>(data), *strict)),
             |_| None,
@@ -131,8 +146,18 @@ pub fn execute(store: &mut AnnotationStore, op: &Op) -> Outcome {
             guard(|| store.remove_key(bi::<AnnotationDataSet>(set), bi::<DataKey>(key), *strict)),
             |_| None,
         ),
-        Op::RemoveResource(r) => res(guard(|| store.remove_resource(bi::<TextResource>(r))), |_| None),
-        Op::RemoveDataset(r) => res(guard(|| store.remove_dataset(bi::<AnnotationDataSet>(r))), |_| None),
+        Op::RemoveResource(r) => match (r, form(r)) {
+            (Ref::Id(s), 0) => res(guard(|| store.remove_resource(s.as_str())), |_| None),
+            (Ref::Id(s), 1) => res(guard(|| store.remove_resource(s.clone())), |_| None),
+            (Ref::Handle(h), 0) => res(guard(|| store.remove_resource(TextResourceHandle::new(*h))), |_| None),
+            _ => res(guard(|| store.remove_resource(bi::<TextResource>(r))), |_| None),
+        },
+        Op::RemoveDataset(r) => match (r, form(r)) {
+            (Ref::Id(s), 0) => res(guard(|| store.remove_dataset(s.as_str())), |_| None),
+            (Ref::Id(s), 1) => res(guard(|| store.remove_dataset(s.clone())), |_| None),
+            (Ref::Handle(h), 0) => res(guard(|| store.remove_dataset(AnnotationDataSetHandle::new(*h))), |_| None),
+            _ => res(guard(|| store.remove_dataset(bi::<AnnotationDataSet>(r))), |_| None),
+        },
         Op::ProtectText(m) => res(guard(|| store.protect_text(pmode(*m))), |_| None),
         Op::QueryDelete(kind, id) => {
             // ANNOTATION goes through STAMQL text (the only result type the DELETE grammar accepts), the other two
